@@ -101,6 +101,21 @@ def check_join(ctx, backend, base, r, literal=None, via=None):
     fields = ",".join(k for k in ("scheme", "authority", "path", "query", "fragment") if got[k] != T[k])
     if not ctx.check(got == T, "join() result differs from RFC 3986 5.2.2 resolution of the encoded components", observed=got, expected=T, entry="resolve:" + fields):
         return
+    # the same at the finest grain the library exposes: an empty path under an authority reads '/' through raw_path, but its segments are
+    # ('/',) and not ('/', ''), so raw_parts distinguishes T.path = "" (5.2.2: "T.path = Base.path") from "/"
+    def exact(u, d):
+        return dict(d, path="") if d["authority"] is not None and u.raw_parts == ("/",) else d
+    Tx = ref.resolve(exact(B, bd), exact(R, rd))
+    tp, ta = Tx["path"], Tx["authority"]
+    if not tp:
+        eparts = ("/",) if ta else ("",)
+    elif tp[0] == "/" or ta:
+        eparts = ("/",) + tuple(tp[1:].split("/"))
+    else:
+        eparts = tuple(tp.split("/"))
+    if not ctx.check(J.raw_parts == eparts, "raw_parts of the result are not the segments of the RFC-resolved path (an empty path stays empty)", observed=[J.raw_parts, str(J)], expected=[eparts, tp],
+                     entry="resolve:parts"):
+        return
     if literal is not None:
         ctx.check(str(J) == literal, "join() differs from the RFC 3986 5.4 table", observed=str(J), expected=literal, entry="rfc-table")
     try:
